@@ -131,6 +131,32 @@ func (h *H) faultActions(rt *rapid.T, fc *faultCounters) map[string]func(*rapid.
 			h.Store.ClearFaults()
 			fc.storeFault++
 		},
+		// a Save which is slow on the publisher's goroutine while the read
+		// routine stores on its own: Persistence operations of two goroutines overlap
+		"slowSave": func(rt *rapid.T) {
+			c := h.Current()
+			if c == nil || len(c.Owed()) == 0 || h.Store.Parked() > 0 {
+				rt.Skip("nothing for the read routine to store meanwhile")
+			}
+			h.Store.ParkNext('S')
+			level := byte(rapid.IntRange(1, 2).Draw(rt, "level"))
+			h.Act("slowSave: the next Save parks")
+			call := h.pub(level, false)
+			if h.Store.Parked() == 0 {
+				h.Store.ClearParks()
+				return // refused before it got to the Persistence
+			}
+			h.App.Step()
+			h.releaseAcks(rapid.IntRange(1, 4).Draw(rt, "n"))
+			h.Act("slowSave: released")
+			h.Store.Release()
+			h.Store.ClearParks()
+			h.SettleCall(call)
+			h.PollExchanges()
+			if h.IsDone(call) && call.Err == nil {
+				h.accepted[level] = append(h.accepted[level], call)
+			}
+		},
 		"storeFault": func(rt *rapid.T) {
 			kind := rapid.SampledFrom([]byte{'S', 'D', 'L'}).Draw(rt, "op")
 			h.Store.FailNext(kind)
